@@ -111,6 +111,7 @@ pub fn run_source_api(it: &mut Interpreter, source: &str, path: Option<&str>, re
     EVENTS.with(|e| e.borrow_mut().clear());
     let mut nth = 0usize;
     let mut held: Vec<(RuntimeValue, usize)> = Vec::new();
+    let mut settled: Vec<RuntimeValue> = Vec::new();
     let mut r = if use_eval { it.eval(source, path.map(ModulePath::new)) } else { it.prepare(source, path.map(ModulePath::new)) };
     let mut steps = 0u64;
     let mut err: Option<String> = None;
@@ -128,6 +129,9 @@ pub fn run_source_api(it: &mut Interpreter, source: &str, path: Option<&str>, re
             Ok(StepResult::Suspended { pending, .. }) => {
                 if pending.is_empty() {
                     if mode == "spurious" && spurious < 2 { spurious += 1; r = it.step(); continue; }
+                    // "batch": plain answers, the whole batch in one fulfill_orders call; responses delivered earlier are
+                    // picked up by later steps, so an empty suspension is only a deadlock when it persists
+                    if mode == "batch" && spurious < 10 { spurious += 1; r = it.step(); continue; }
                     spurious = 0;
                     if held.is_empty() { break "STUCK".into(); }
                     let (p, k) = held.remove(0);
@@ -135,13 +139,17 @@ pub fn run_source_api(it: &mut Interpreter, source: &str, path: Option<&str>, re
                     let res = if rv["k"] == "err" { api::reject_promise(it, &p, RuntimeValue::unguarded(JsValue::from("TypeError: boom"))) }
                               else { api::resolve_promise(it, &p, RuntimeValue::unguarded(JsValue::Number(rv["v"].as_f64().unwrap_or(0.0)))) };
                     if res.is_err() { break "HOSTAPI-ERROR".into(); }
+                    // the promise was handed over as an UNGUARDED response value: an order issued by a native caller picks
+                    // its response up only when the program gets to it, so the host keeps its guard to the end of the run
+                    settled.push(p);
                 } else {
+                    spurious = 0;
                     let mut rs = Vec::new();
                     for o in pending {
                         EVENTS.with(|ev| ev.borrow_mut().push(format!("O|{}", canon(o.payload.value(), 3))));
                         let k = nth; nth += 1;
                         let rv = if resp.is_empty() { serde_json::json!({"k":"val","v":0}) } else { resp[k % resp.len()].clone() };
-                        if mode != "immediate" {
+                        if mode != "immediate" && mode != "batch" {
                             let p = api::create_promise(it);
                             let pv = p.value().clone();
                             rs.push(OrderResponse { id: o.id, result: Ok(RuntimeValue::unguarded(pv)) });
@@ -156,6 +164,7 @@ pub fn run_source_api(it: &mut Interpreter, source: &str, path: Option<&str>, re
         r = it.step();
     };
     let ev = EVENTS.with(|e| e.borrow_mut().drain(..).collect());
+    drop(settled);
     RunOut { ev, status, steps, err }
 }
 
